@@ -83,8 +83,11 @@ DIV_POOL = [
     (("135792468", "1"), SENTINEL), (("271584936", "2"), SENTINEL), (("x", "1"), NAN), (("10", "1"), 10.0),
 ]
 
-TEXT_FORMS = ["attr", "attr", "child", "string", "concat", "dot", "probe"]
-NUM_FORMS = ["attr", "attr", "child", "number", "div", "div", "dot", "probe", "pos", "rpos"]
+# forms cur / curtab / curkey / genid depend on the CURRENT node during key evaluation (XSLT 10: the node being sorted);
+# pos / rpos / tpos on the context position and size (the full unsorted list)
+TEXT_FORMS = ["attr", "attr", "child", "string", "concat", "dot", "probe", "cur", "curtab", "curkey", "genid", "tpos"]
+NUM_FORMS = ["attr", "attr", "child", "number", "div", "div", "dot", "probe", "pos", "rpos", "cur", "curtab", "curkey", "genid"]
+TPOS = "zyxwvutsrqponmlkjihgfedcba"
 
 
 def gen_value(r, key, profile):
@@ -168,7 +171,7 @@ def gen_abort_pair(r, maxn=10):
     while True:
         first = gen_case(r, maxn=maxn, maxkeys=r.range(1, 3))
         if len(first["rows"]) >= 3 and not any(k.get("odd") for k in first["keys"]) \
-                and not any(k["form"] in ("pos", "rpos") for k in first["keys"]):
+                and not any(k["form"] in ("pos", "rpos", "tpos") for k in first["keys"]):
             break
     first["abort"] = r.weighted([("boom", 4), ("badkey", 3), ("nofunc", 2), ("avt", 2)])
     first.pop("reenter", None)
@@ -276,6 +279,8 @@ def gen_case(r, maxn=12, maxkeys=4):
                 row[j] = ("n", "#pos", float((i + 1) // 2))
             elif k["form"] == "rpos":
                 row[j] = ("n", "#rpos", float(n - (i + 1)))
+            elif k["form"] == "tpos":
+                row[j] = ("t", TPOS[i:i + 1])
     # unselected nodes interleaved in the document (selection by @sel)
     subset = r.chance(1, 3)
     return {"mode": r.choice(["fe", "at"]), "nest": r.chance(1, 3), "keys": keys, "rows": rows,
@@ -303,6 +308,8 @@ def gen_ucase(r, maxn=12):
     for k in case["keys"]:
         if k.get("odd", "").startswith("bad-"):
             k["odd"] = ""
+        if k["form"] == "tpos":
+            k["form"] = "cur"
     style = r.weighted([("mixed", 4), ("casey", 5)])
     pool = [""]
     if style == "casey":
@@ -396,6 +403,16 @@ def key_expr(j, key):
         return "floor(position() div 2)"
     if f == "rpos":
         return "last() - position()"
+    if f == "tpos":
+        return "substring('%s', position(), 1)" % TPOS
+    if f == "cur":
+        return "current()/@k%d" % j
+    if f == "curtab":
+        return "/r/t/s[@ref = current()/@id]/@v%d" % j
+    if f == "curkey":
+        return "key('kid', current()/@id)/@v%d" % j
+    if f == "genid":
+        return "../e[generate-id() = generate-id(current())]/@k%d" % j
     raise ValueError(f)
 
 
@@ -408,6 +425,7 @@ def build(case):
         rootattrs.append('o%d="%s"' % (j, "descending" if k["desc"] else "ascending"))
         rootattrs.append('t%d="%s"' % (j, "number" if k["number"] else "text"))
     parts = ["<r %s><g>" % " ".join(rootattrs)]
+    side = {}
     noise = case.get("noise") or []
 
     def noise_elem(i):
@@ -427,14 +445,19 @@ def build(case):
                 kids.append("<c%d>%s</c%d>" % (j, esc(lex), j))
             elif f == "dot":
                 text = esc(lex)
-            elif f in ("pos", "rpos"):
+            elif f in ("pos", "rpos", "tpos"):
                 pass
+            elif f in ("curtab", "curkey"):
+                side.setdefault(i, []).append('v%d="%s"' % (j, esc(lex)))
             else:
                 attrs.append('k%d="%s"' % (j, esc(lex)))
         parts.append("<e %s>%s%s</e>" % (" ".join(attrs), "".join(kids), text))
     if noise and noise[len(rows)]:
         parts.append(noise_elem(len(rows)))
-    parts.append("</g></r>")
+    parts.append("</g>")
+    # side table looked up through current()/@id (rows in reverse order, so that document order does not help)
+    parts.append("<t>" + "".join('<s ref="%d" %s/>' % (i, " ".join(side[i])) for i in sorted(side, reverse=True)) + "</t>")
+    parts.append("</r>")
     xml = '<?xml version="1.0"?>' + "".join(parts)
 
     # ---- stylesheet
@@ -459,7 +482,7 @@ def build(case):
                 a.append('%s="%s"' % (nm, k[key]))
         sorts.append("<xsl:sort %s/>" % " ".join(a))
         e = key_expr(j, k).replace("p:probe(%d,@id,@k%d)" % (j, j), "@k%d" % j)
-        if k["form"] in ("pos", "rpos"):
+        if k["form"] in ("pos", "rpos", "tpos"):
             echo.append("|p")
         elif k["number"]:
             # exact observation of the key value: IEEE bits of number(expr)
@@ -574,6 +597,7 @@ def build(case):
             inner += '{G:<xsl:value-of select="$g"/>}'
     xsl = ('<?xml version="1.0"?><xsl:stylesheet version="1.0" xmlns:xsl="http://www.w3.org/1999/XSL/Transform" '
            'xmlns:p="%s" xmlns:q="urn:verif:none" exclude-result-prefixes="p q"><xsl:output method="text"/>'
+           '<xsl:key name="kid" match="/r/t/s" use="@ref"/>'
            '<xsl:template match="/">%s%s</xsl:template>%s'
            '<xsl:template match="e" mode="back"><xsl:if test="position() = 0">x</xsl:if></xsl:template>%s'
            '</xsl:stylesheet>' % (PROBE_NS, presort, inner, templ, globals_))
@@ -624,7 +648,7 @@ def expected_echo(case, i):
     """per key: the set of acceptable strings printed for row i"""
     res = []
     for k, v in zip(case["keys"], case["rows"][i]):
-        if k["form"] in ("pos", "rpos"):
+        if k["form"] in ("pos", "rpos", "tpos"):
             res.append(["p"])
         elif k["number"]:
             res.append(["NaN"] if v[2] != v[2] else [bits(v[2])])
